@@ -446,7 +446,9 @@ package factstore
 // No input line can crash the reader: every index, make and type assertion in readPred is safe.
 //@ func (sc SimpleColumn) readPred(scanner, p, numFacts, filter, cb)
 //@   requires 0 <= numFacts && numFacts <= 4294967296 && 0 <= p.Arity && p.Arity <= 1024 && (filter == nil || len(filter) == p.Arity)
-//@   loop 1 invariant 0 <= i && i <= numFacts && len(args) == numFacts && len(skip) == numFacts
+//@   loop 1 invariant 0 <= i && i <= numFacts && len(args) == numFacts && len(skip) == numFacts && (forall k int :: 0 <= k && k < i ==> len(args[k]) == p.Arity)
+//@   loop 2 invariant 0 <= numSkip && numSkip <= j * 4294967296
+//@   loop 3 invariant 0 <= numSkip && numSkip <= j * 4294967296 + i#2
 //@   loop 2 invariant 0 <= j && j <= p.Arity && len(args) == numFacts && len(skip) == numFacts && (forall k int :: 0 <= k && k < numFacts ==> len(args[k]) == p.Arity)
 //@   loop 3 invariant 0 <= j && j < p.Arity && 0 <= i#2 && i#2 <= numFacts && len(args) == numFacts && len(skip) == numFacts && (forall k int :: 0 <= k && k < numFacts ==> len(args[k]) == p.Arity)
 //@   loop 4 invariant 0 <= i#3 && i#3 <= numFacts && len(args) == numFacts && len(skip) == numFacts
